@@ -18,12 +18,19 @@ C19 — line-protocol driver of the model (core only). State = the world (users,
        FormValue("q") resolves to, every other handler from q0.
                                                                  → 401 fx=0 | 403 fx=0 | az fx=0 | 404 fx=0 | 405 fx=0 | pass | pass x=<db acted on> | broken
 pairs = - | <k>:<v>(,<k>:<v>)*      alts = - | <hex of query text>=<stmts>(/<hex>=<stmts>)*
+  mauth u=<s> p=<s> h=<hdr>       lib/httpserver.Authenticate (ts-meta / ts-store)      → deny <st> | inner | deny+inner <st>
+  setpw <name> <pw>               the catalogue's password of the user changes; the password cache is not cleaned → ok | nouser
+  cauth <name> <pw>               Client.Authenticate with the password cache (stateful)  → ok | fail
+  boot cfg=<…> <METHOD> <path> db=<s> u=<s> p=<s> h=<hdr> q=<stmts>   a world without users → decision as for route
 strings are hex (UTF-8), "-" = empty.  priv = 0..3.
+hdr also: jwt:<alg><key><exp><nbf>:<m|x|n<name>>   alg a=HS256 b=HS384 c=HS512 n=none r=RS256; key s=shared secret w=other e=empty;
+          exp f=future p=past m=missing z=0 n=negative t=a string; nbf a=absent p=past f=future
 hdr   = - | basic:<u>:<p> | bearer:<parses><expOk>:<m|x|n<name>> | token:<s> | other
 stmts = - | stmt(;stmt)*     stmt = <Kind>,<target>,<priv(|priv)*>     priv = <admin><rwuser><0..3>.<dbname>
 -/
 import OG.C19.Model
 import OG.C19.Flow
+import OG.C19.Wide
 
 namespace OG.C19
 
@@ -62,12 +69,36 @@ def kv (key : String) (tok : String) : Option String :=
 
 def parsePriv (s : String) : Option Priv := s.toNat? >>= Priv.ofNat?
 
-def parseHdr (s : String) : Option AuthHeader :=
+def parseJwtUser (usr : String) : Option JwtUser :=
+  match usr.toList with
+  | ['m'] => some JwtUser.missing
+  | ['x'] => some JwtUser.notString
+  | 'n' :: rest => (unhex (String.ofList rest)).map JwtUser.name
+  | _ => none
+
+def parseJwtTok (flags usr : String) : Option JwtTok :=
+  match flags.toList with
+  | [a, k, e, n] => do
+    let alg ← match a with
+      | 'a' => some JwtAlg.hs256 | 'b' => some JwtAlg.hs384 | 'c' => some JwtAlg.hs512 | 'n' => some JwtAlg.none | 'r' => some JwtAlg.rs256
+      | _ => none
+    let key ← match k with
+      | 's' => some JwtKey.server | 'w' => some JwtKey.wrong | 'e' => some JwtKey.empty | _ => none
+    let exp ← match e with
+      | 'f' => some JwtExp.future | 'p' => some JwtExp.past | 'm' => some JwtExp.missing | 'z' => some JwtExp.zero
+      | 'n' => some JwtExp.negative | 't' => some JwtExp.text | _ => none
+    let nbf ← match n with
+      | 'a' => some JwtNbf.absent | 'p' => some JwtNbf.past | 'f' => some JwtNbf.future | _ => none
+    some ⟨alg, key, exp, nbf, ← parseJwtUser usr⟩
+  | _ => none
+
+def parseHdr (secret : Bool) (s : String) : Option AuthHeader :=
   if s = "-" then some .absent
   else if s = "other" then some .other
   else match s.splitOn ":" with
     | ["basic", u, p] => do some (.basic (← unhex u) (← unhex p))
     | ["token", t] => do some (.token (← unhex t))
+    | ["jwt", flags, usr] => (parseJwtTok flags usr).map (fun t => .bearer (t.abstract secret))
     | ["bearer", flags, usr] =>
       match flags.toList with
       | [a, b] => do
@@ -82,8 +113,8 @@ def parseHdr (s : String) : Option AuthHeader :=
       | _ => none
     | _ => none
 
-def parseReq (u p h : String) : Option Req := do
-  some ⟨← unhex (← kv "u" u), ← unhex (← kv "p" p), ← parseHdr (← kv "h" h)⟩
+def parseReq (secret : Bool) (u p h : String) : Option Req := do
+  some ⟨← unhex (← kv "u" u), ← unhex (← kv "p" p), ← parseHdr secret (← kv "h" h)⟩
 
 def parseExecPriv (s : String) : Option ExecPriv :=
   match s.splitOn "." with
@@ -214,7 +245,7 @@ def step (w : World) (line : String) : World × String :=
       | none => (w, "nouser")
     | _, _, _ => (w, "bad-op")
   | ["auth", u, p, h] =>
-    match parseReq u p h with
+    match parseReq w.sharedSecret u p h with
     | some r => (w, showAuth (authenticate w r))
     | none => (w, "bad-op")
   | ["routes", cfg] =>
@@ -223,12 +254,12 @@ def step (w : World) (line : String) : World × String :=
     | none => (w, "bad-op")
   | ["bb", cfg, method, path, db, dbx, u, p, h, q] =>
     match (kv "cfg" cfg).bind parseCfg, unhex path, (kv "db" db).bind unhex, (kv "dbx" dbx).bind (fun x => x.toList.head?.bind bit),
-          parseReq u p h, (kv "q" q).bind parseStmts with
+          parseReq w.sharedSecret u p h, (kv "q" q).bind parseStmts with
     | some c, some path, some d, some dx, some r, some q => (w, showDecisionBare (decide w c method path.toList r d dx q))
     | _, _, _, _, _, _ => (w, "bad-op")
   | ["preq", cfg, method, path, ct, url, body, h, dbs, q0, qs] =>
     match (kv "cfg" cfg).bind parseCfg, unhex path, (kv "ct" ct).bind parseCType, (kv "url" url).bind parsePairs,
-          (kv "body" body).bind parsePairs, (kv "h" h).bind parseHdr, (kv "dbs" dbs).bind parseDbs,
+          (kv "body" body).bind parsePairs, (kv "h" h).bind (parseHdr w.sharedSecret), (kv "dbs" dbs).bind parseDbs,
           (kv "q0" q0).bind parseStmts, (kv "qs" qs).bind parseAlts with
     | some c, some path, some ct, some url, some body, some hdr, some dbs, some q0, some qs =>
       let req : HttpReq := ⟨method, ct, url, body, [], hdr⟩
@@ -242,20 +273,54 @@ def step (w : World) (line : String) : World × String :=
     | _, _, _, _, _, _, _, _, _ => (w, "bad-op")
   | ["route", cfg, method, path, db, dbx, u, p, h, q] =>
     match (kv "cfg" cfg).bind parseCfg, unhex path, (kv "db" db).bind unhex, (kv "dbx" dbx).bind (fun x => x.toList.head?.bind bit),
-          parseReq u p h, (kv "q" q).bind parseStmts with
+          parseReq w.sharedSecret u p h, (kv "q" q).bind parseStmts with
     | some c, some path, some d, some dx, some r, some q => (w, showDecision (decide w c method path.toList r d dx q))
     | _, _, _, _, _, _ => (w, "bad-op")
   | _ => (w, "bad-op")
 
-partial def loop (w : World) (h : IO.FS.Stream) (out : IO.FS.Stream) : IO Unit := do
+/-- the driver's state: the world and the password cache of the (one) meta client serving it. -/
+structure St where
+  w : World
+  cache : AuthCache
+
+def showPlain : PlainOutcome → String
+  | .deny s => "deny " ++ toString s
+  | .inner => "inner"
+  | .denyThenInner s => "deny+inner " ++ toString s
+
+def stepS (s : St) (line : String) : St × String :=
+  let w := s.w
+  match (line.trimAscii.toString.splitOn " ").filter (· ≠ "") with
+  | "world" :: _ => let (w', a) := step w line; (⟨w', []⟩, a)     -- a new world is served by a new client: empty cache
+  | ["setpw", name, pw] =>
+    match unhex name, unhex pw with
+    | some n, some p => if (w.findUser n).isSome then (⟨w.setPassword n p, s.cache⟩, "ok") else (s, "nouser")
+    | _, _ => (s, "bad-op")
+  | ["cauth", name, pw] =>
+    match unhex name, unhex pw with
+    | some n, some p =>
+      let (ou, c') := authCached OG.Gen.C19.authCacheChecksBase w s.cache n p
+      (⟨w, c'⟩, if ou.isSome then "ok" else "fail")
+    | _, _ => (s, "bad-op")
+  | ["mauth", u, p, h] =>
+    match parseReq w.sharedSecret u p h with
+    | some r => (s, showPlain (authenticatePlain w r))
+    | none => (s, "bad-op")
+  | ["boot", cfg, method, path, db, u, p, h, q] =>
+    match (kv "cfg" cfg).bind parseCfg, unhex path, (kv "db" db).bind unhex, parseReq w.sharedSecret u p h, (kv "q" q).bind parseStmts with
+    | some c, some path, some d, some r, some q => (s, showDecision (decideBoot w c method path.toList r d q))
+    | _, _, _, _, _ => (s, "bad-op")
+  | _ => let (w', a) := step w line; (⟨w', s.cache⟩, a)
+
+partial def loop (s : St) (h : IO.FS.Stream) (out : IO.FS.Stream) : IO Unit := do
   let line ← h.getLine
   if line.isEmpty then return ()
-  let (w', ans) := step w line
+  let (s', ans) := stepS s line
   out.putStrLn ans
-  loop w' h out
+  loop s' h out
 
 def main : IO Unit := do
-  loop emptyWorld (← IO.getStdin) (← IO.getStdout)
+  loop ⟨emptyWorld, []⟩ (← IO.getStdin) (← IO.getStdout)
 
 end OG.C19
 
